@@ -1033,6 +1033,20 @@ def rule_sign(rep):
         raise cj.AnalysisBroken("C12.sign: only %d instantiated iterator members found" % n)
 
 
+def rule_lockstep(rep):
+    """The iterators of the optional containers pair a value iterator with a flag iterator; begin()/end(), end() - k and the reverse
+    iterators only designate the same element in both halves while the two storages have the same length.  The lockstep rule of the
+    container property (C11.pair: every operation on the value storage is mirrored on the flag storage with the same size/index) is
+    therefore a necessary condition of this one and is decided again under this property's id."""
+    from . import c11
+    from ..report import Renamed
+    rep.rule("C12.pair", "the value and the flag half of a paired iterator range have the same length: every member of the optional containers that resizes, "
+                         "assigns, inserts into or erases from the value storage does the same to the flag storage with the same size/index arguments")
+    d = cj.dump(c11.DRIVER, "xtl::")
+    rep.cmd(d.cmd)
+    c11.rule_pairing(Renamed(rep, {"C11.pair": "C12.pair"}, {"C12.pair": rep.rules["C12.pair"]}), d)
+
+
 def run(tier):
     rep = Report("C12", tier, "other",
                  "Symbolic-position evaluation of the derived operators of both iterator bases (all orderings / all paths) and of the "
@@ -1052,5 +1066,6 @@ def run(tier):
     rule_step(rep, d, classes)
     rule_ranges(rep, d)
     rule_sign(rep)
+    rule_lockstep(rep)
     rep.unit("3 base templates; concrete iterators: %s" % ", ".join("%s(%s)" % (c["name"], k) for c, k in classes))
     return rep
